@@ -23,18 +23,31 @@ Sizing rig (C17): binds the Sizing specification to the real code.
   platform's REAL resource manager (`_init_from_scratch`) inside a faked
   allocation of exactly the nodes the job requests (pieces of rmnodes_rig).
 * `bulk()` drives the REAL `PMGRLaunchingComponent.work()` ->
-  `_start_pilot_bulk()` -> `_prepare_pilot()` for a bulk of pilots naming mixed
-  platforms / access schemas; staging, tar and the job submission are
-  recorders, the submission of one chosen bucket can be made to raise.
+  `_start_pilot_bulk()` -> `_prepare_pilot()` -> launcher selection ->
+  `launch_pilots()` of the REAL `PilotLauncherPSIJ` / `PilotLauncherSAGA` for a
+  bulk of pilots naming mixed platforms / access schemas and of mixed sizes.
+  The launchers are the ones the REAL `PMGRLaunchingComponent.__init__`
+  constructs when the optional modules of the case are "installed"; `psij` and
+  `radical.saga` are recording stand-ins (`fake_psij`, `fake_saga`: the classes
+  and signatures the launchers use; the batch system end - `JobExecutor.submit`,
+  `job.Container.run` - records what reaches it and can be made to refuse the
+  jobs of one chosen bucket).  Staging and tar are recorders.
 '''
 
 import os
 import sys
 import copy
+import enum
 import glob
 import json
+import shlex
+import types
+import random
 import shutil
+import logging
+import datetime
 import tempfile
+import functools
 import threading as mt
 
 from unittest import mock
@@ -51,6 +64,23 @@ from radical.pilot.agent.launch_method.base    import LaunchMethod
 from radical.pilot.agent.scheduler.base        import AgentSchedulingComponent
 from radical.pilot.agent.executing.base        import AgentExecutingComponent
 from radical.pilot.agent.resource_manager      import fork as fork_mod
+
+# The launcher modules bind their optional modules (psij, radical.saga) when they are
+# imported; the rig replaces these bindings by its stand-ins whenever a launcher runs.
+# psi_j.py switches the root logger to DEBUG on import (logging.basicConfig) and a real
+# psij logs while loading: keep it from loading, undo the logger setup.
+_root = logging.getLogger()
+_keep = (list(_root.handlers), _root.level, sys.modules.get('psij'))
+if _keep[2] is None:
+    sys.modules['psij'] = types.ModuleType('psij')
+try:
+    from radical.pilot.pmgr.launching import psi_j as psi_mod
+    from radical.pilot.pmgr.launching import saga  as saga_mod
+finally:
+    if _keep[2] is None:
+        sys.modules.pop('psij', None)
+    _root.handlers[:] = _keep[0]
+    _root.setLevel(_keep[1])
 
 from . import rmnodes_rig as RM
 
@@ -84,6 +114,270 @@ def _capture(fn, *args):
     return res, got['impl']
 
 
+
+# ------------------------------------------------------------------------------
+# recording stand-ins for the optional modules of the pilot launchers
+#
+PSIJ_EXECUTORS = ('cobalt', 'flux', 'local', 'lsf', 'pbs', 'pbs_classic', 'rp', 'slurm')
+LAUNCHER_ORDER = ('PSI_J', 'SAGA')          # the design: PSI/J is asked before SAGA
+
+
+class Hooks(object):
+    """the batch system end of both stand-ins; set per bulk by the rig"""
+    psij_submit = None           # f(executor, job): record; raise = submission refused
+    saga_run    = None           # f(container)    : record; set job states
+
+
+def fake_psij(hooks):
+    """module object offering what psij (0.9) offers to a client which describes
+       and submits jobs: JobState, JobStatus, JobAttributes, ResourceSpecV1, JobSpec,
+       Job, JobExecutor (same constructor signatures and defaults)"""
+    m = types.ModuleType('psij')
+
+    class JobState(enum.Enum):
+        NEW, QUEUED, ACTIVE, COMPLETED, FAILED, CANCELED = range(6)
+
+    class JobStatus(object):
+        def __init__(self, state, time=None, message=None, exit_code=None, metadata=None):
+            self.state, self.time, self.message = state, time, message
+            self.exit_code, self.metadata = exit_code, metadata
+
+    class SubmitException(Exception):
+        pass
+
+    class InvalidJobException(Exception):
+        pass
+
+    class JobAttributes(object):
+        def __init__(self, duration=datetime.timedelta(minutes=10), queue_name=None, account=None,
+                     reservation_id=None, custom_attributes=None, project_name=None):
+            self.duration, self.queue_name, self.reservation_id = duration, queue_name, reservation_id
+            self.account = account if account is not None else project_name
+            self._custom_attributes = custom_attributes
+
+        project_name = property(lambda self: self.account,
+                                lambda self, v: setattr(self, 'account', v))
+
+        @property
+        def custom_attributes(self):
+            return self._custom_attributes
+
+        def set_custom_attribute(self, name, value):
+            if self._custom_attributes is None:
+                self._custom_attributes = dict()
+            self._custom_attributes[name] = value
+
+        def get_custom_attribute(self, name):
+            return (self._custom_attributes or {}).get(name)
+
+    class ResourceSpec(object):
+        pass
+
+    class ResourceSpecV1(ResourceSpec):
+        def __init__(self, node_count=None, process_count=None, processes_per_node=None,
+                     cpu_cores_per_process=None, gpu_cores_per_process=None,
+                     exclusive_node_use=False, memory=None):
+            self.node_count, self.process_count = node_count, process_count
+            self.processes_per_node             = processes_per_node
+            self.cpu_cores_per_process          = cpu_cores_per_process
+            self.gpu_cores_per_process          = gpu_cores_per_process
+            self.exclusive_node_use, self.memory = exclusive_node_use, memory
+
+    class JobSpec(object):
+        def __init__(self, executable=None, arguments=None, directory=None, name=None,
+                     inherit_environment=True, environment=None, stdin_path=None, stdout_path=None,
+                     stderr_path=None, resources=None, attributes=None, pre_launch=None,
+                     post_launch=None, launcher=None):
+            self.executable, self.arguments, self.directory, self.name = executable, arguments, directory, name
+            self.inherit_environment, self.environment = inherit_environment, environment
+            self.stdin_path, self.stdout_path, self.stderr_path = stdin_path, stdout_path, stderr_path
+            self.resources   = resources
+            self.attributes  = attributes if attributes is not None else JobAttributes()
+            self.pre_launch, self.post_launch, self.launcher = pre_launch, post_launch, launcher
+
+    class Job(object):
+        _count = 0
+
+        def __init__(self, spec=None):
+            Job._count   += 1
+            self.id       = 'psij.job.%06d' % Job._count
+            self.spec     = spec
+            self.status   = JobStatus(JobState.NEW)
+            self.executor = None
+
+        def cancel(self):
+            if self.executor:
+                self.executor.cancel(self)
+
+    class JobExecutor(object):
+        def __init__(self, name):
+            self.name, self._cb, self.submitted, self.cancelled = name, None, [], []
+
+        @staticmethod
+        def get_executor_names():
+            return set(PSIJ_EXECUTORS)
+
+        @staticmethod
+        def get_instance(name, version_constraint=None, url=None, config=None):
+            if name not in PSIJ_EXECUTORS:
+                raise ValueError('No such executor "%s". Available executors: %s'
+                                 % (name, ', '.join(PSIJ_EXECUTORS)))
+            return JobExecutor(name)
+
+        def set_job_status_callback(self, cb):
+            self._cb = cb
+
+        def submit(self, job):
+            if job.spec is None or not job.spec.executable:
+                raise InvalidJobException('job has no specification / executable')
+            if hooks.psij_submit:
+                hooks.psij_submit(self, job)           # may raise SubmitException
+            job.executor = self
+            job.status   = JobStatus(JobState.QUEUED)
+            self.submitted.append(job)
+
+        def cancel(self, job):
+            self.cancelled.append(job)
+
+    for cls in (JobState, JobStatus, SubmitException, InvalidJobException, JobAttributes, ResourceSpec,
+                ResourceSpecV1, JobSpec, Job, JobExecutor):
+        setattr(m, cls.__name__, cls)
+    return m
+
+
+def fake_saga(hooks):
+    """module object offering what radical.saga offers to a client which describes
+       and submits jobs: Session, job.Service, job.Description (attribute interface),
+       job.Container, job objects with state and callbacks, the state constants"""
+    rs  = types.ModuleType('radical.saga')
+    job = types.ModuleType('radical.saga.job')
+    rs.job   = job
+    rs.STATE = job.STATE = 'State'
+    for k, v in dict(UNKNOWN='Unknown', NEW='New', PENDING='Pending', RUNNING='Running', DONE='Done',
+                     CANCELED='Canceled', FAILED='Failed', SUSPENDED='Suspended').items():
+        setattr(rs, k, v)
+        setattr(job, k, v)
+
+    class Session(object):
+        def __init__(self, default=True, uid=None):
+            self.contexts = []
+
+    class Description(object):
+        def __init__(self):
+            self.__dict__['_d'] = dict()
+
+        def set_attribute(self, key, val):
+            self._d[key] = val
+
+        def get_attribute(self, key):
+            return self._d.get(key)
+
+        def attribute_exists(self, key):
+            return key in self._d
+
+        def as_dict(self):
+            return dict(self._d)
+
+        __setitem__ = set_attribute
+        __getitem__ = get_attribute
+        __setattr__ = set_attribute
+
+        def __getattr__(self, key):
+            if key.startswith('__'):
+                raise AttributeError(key)
+            return self.__dict__['_d'].get(key)
+
+    class Job(object):
+        _count = 0
+
+        def __init__(self, service, descr):
+            Job._count += 1
+            self.id, self.name   = None, descr.get('name')
+            self.service         = service
+            self.description     = descr            # copied at create_job, as radical.saga does
+            self.state           = job.NEW
+            self.stdout, self.stderr, self.exit_code = '', '', None
+            self.callbacks       = []
+            self._serial         = Job._count
+
+        def add_callback(self, metric, cb):
+            self.callbacks.append((metric, cb))
+
+        def get_state(self):
+            return self.state
+
+        def run(self):
+            c = Container()
+            c.add(self)
+            c.run()
+
+        def cancel(self, timeout=None):
+            self.state = job.CANCELED
+
+        def wait(self, timeout=None):
+            return True
+
+    class Service(object):
+        def __init__(self, rm=None, session=None):
+            self.url, self.session, self.closed = str(rm), session, False
+
+        def create_job(self, jd):
+            return Job(self, copy.deepcopy(jd.as_dict()))
+
+        def close(self):
+            self.closed = True
+
+    class Container(object):
+        def __init__(self):
+            self.tasks = []
+
+        def add(self, task):
+            self.tasks.append(task)
+
+        def get_tasks(self):
+            return list(self.tasks)
+
+        def run(self):
+            for t in self.tasks:
+                t.id, t.state = '[%s]-[%d]' % (t.service.url, t._serial), job.PENDING
+            if hooks.saga_run:
+                hooks.saga_run(self)                   # may set states to FAILED
+
+        def cancel(self, timeout=None):
+            for t in self.tasks:
+                t.cancel()
+
+        def wait(self, mode=None, timeout=None):
+            return list(self.tasks)
+
+    rs.Session = Session
+    job.Description, job.Service, job.Container, job.Job = Description, Service, Container, Job
+    return rs
+
+
+def _unquoted(args):
+    """the arguments as the shell of the batch job sees them"""
+    out = []
+    for a in args or []:
+        try:
+            out += shlex.split(str(a)) or ['']
+        except ValueError:
+            out.append(str(a))
+    return out
+
+
+def _after(args, flag):
+    args = list(args)
+    return str(args[args.index(flag) + 1]) if flag in args[:-1] else 'none'
+
+
+def agent_proj(told):
+    """what an agent config tells the agent about its allocation"""
+    return {'nodes': int(told['nodes']), 'backup': int(told['backup_nodes']),
+            'cores': int(told['cores']), 'gpus': int(told['gpus']),
+            'cpn': int(told['cores_per_node'] or 0), 'gpn': int(told['gpus_per_node'] or 0)}
+
+
 class _Prof(rpshim.NullLog):
     '''profiler stand-in'''
     enabled = False
@@ -102,6 +396,11 @@ class SizingRig(object):
         self.component = None
         self.tables    = None
         self.cfgfile   = os.path.join(self.wd, 'agent_0.cfg')
+        self.hooks     = Hooks()
+        self.psij      = fake_psij(self.hooks)
+        self.saga      = fake_saga(self.hooks)
+        self._comps    = dict()          # installed launchers -> component built by the real __init__
+        self._plats    = dict()
 
     def close(self):
         for k, v in self.env0.items():
@@ -253,32 +552,34 @@ class SizingRig(object):
                 'bc': [int(x) for x in sa.get('blocked_cores', [])],
                 'bg': [int(x) for x in sa.get('blocked_gpus', [])]}
 
-    def _mkstemp(self, leaked):
-        cfgfile, real_mkstemp = self.cfgfile, tempfile.mkstemp
+    def _mkstemp(self, leaked, fresh=None):
+        real_mkstemp = tempfile.mkstemp
 
         def mkstemp(*a, **k):
-            # the agent config of _prepare_pilot goes to the scratch directory; any other
-            # caller (ru.write_json never closes its descriptor) gets the real thing, and
-            # the descriptors are closed after the call
+            # the agent config of _prepare_pilot goes to the scratch directory (fresh: a
+            # list - one file per call, appended); any other caller (ru.write_json never
+            # closes its descriptor) gets the real thing, and the descriptors are closed
+            # after the call
             if k.get('prefix') == 'rp.agent_cfg.':
+                cfgfile = self.cfgfile
+                if fresh is not None:
+                    cfgfile = '%s.%d' % (self.cfgfile, len(fresh))
+                    fresh.append(cfgfile)
                 return os.open(cfgfile, os.O_CREAT | os.O_WRONLY | os.O_TRUNC), cfgfile
             fd, name = real_mkstemp(*a, **k)
             leaked.append(fd)
             return fd, name
         return mkstemp
 
-    def _figures(self, pilot):
+    def _figures(self, pilot, cfgfile=None):
         '''job description figures and what the agent reads as agent_0.cfg'''
         jd = pilot['jd_dict']
-        with open(self.cfgfile) as fh:
+        with open(cfgfile or self.cfgfile) as fh:
             told = json.load(fh)
         return ({'nodes': int(jd.node_count), 'cpus': int(jd.total_cpu_count),
                  'gpus': int(jd.total_gpu_count), 'pph': int(jd.processes_per_host or 0),
                  'smt': int(jd.environment.get('RADICAL_SMT', 0))},
-                {'nodes': int(told['nodes']), 'backup': int(told['backup_nodes']),
-                 'cores': int(told['cores']), 'gpus': int(told['gpus']),
-                 'cpn': int(told['cores_per_node'] or 0), 'gpn': int(told['gpus_per_node'] or 0)},
-                told)
+                agent_proj(told), told)
 
     def prepare(self, name, rcfg, size, mutate=None, with_rm=False):
         '''real _prepare_pilot for one pilot size -> [Prepared event (, AgentRM event)]'''
@@ -417,15 +718,80 @@ class SizingRig(object):
         sch  = raw['schemas'][used]
         return str(sch['job_manager_endpoint']), str(sch['filesystem_endpoint'])
 
-    def bulk(self, spec, fail):
+    def _modules(self, installed):
+        '''the optional modules of the launchers: stand-in where "installed", absent otherwise'''
+        psi, sag = 'PSI_J' in installed, 'SAGA' in installed
+        return [mock.patch.object(psi_mod, 'psij', self.psij if psi else None),
+                mock.patch.object(psi_mod, 'psij_ex', None if psi else ImportError("No module named 'psij'")),
+                mock.patch.object(saga_mod, 'rs', self.saga if sag else None),
+                mock.patch.object(saga_mod, 'rs_ex', None if sag else ImportError("No module named 'radical.saga'"))]
+
+    def launching_component(self, installed):
+        '''REAL PMGRLaunchingComponent.__init__ (component base class constructor and queue
+           registration stubbed): which launchers it holds, in which order, is the code's'''
+        key = tuple(sorted(installed))
+        if key not in self._comps:
+            log = rpshim.NullLog()
+            log.level, log.debug_level = 'OFF', 0
+
+            def base_init(comp, cfg, session):
+                comp._cfg, comp._session, comp._log, comp._prof = cfg, session, log, _Prof()
+                comp._owner = cfg['owner']
+
+            cls = lbase.PMGRLaunchingComponent
+            cfg = ru.Config(cfg={'owner': 'pmgr.0000', 'base': self.wd})
+            patches = self._modules(installed) + [
+                mock.patch.object(lbase.rpu.BaseComponent, '__init__', base_init),
+                mock.patch.object(cls, 'register_input', lambda *a, **k: None)]
+            for pt in patches:
+                pt.start()
+            try:
+                c = cls(cfg, self.session)
+            finally:
+                for pt in reversed(patches):
+                    pt.stop()
+            c._rp_version = self.component._rp_version
+            self._comps[key] = c
+        return self._comps[key]
+
+    def plat_of(self, name, schema):
+        '''node size of the platform as the resolved configuration states it'''
+        if (name, schema) not in self._plats:
+            rcfg = self.session.get_resource_config(name, schema or None)
+            self._plats[(name, schema)] = SizingRig.platform(name, rcfg)
+        return self._plats[(name, schema)]
+
+    @staticmethod
+    def size_rows(plat):
+        '''three requests which differ from each other in every figure and term
+           (nodes / cores / gpus / backup, walltime, queue[:qos], project[:reservation])'''
+        a = plat['cpn'] * plat['smt'] - plat['nbc']
+        g = plat['gpn'] - plat['nbg']
+        if plat['cpn'] > 0:
+            return [dict(nodes=1, runtime=10, queue='qa', project='pa'),
+                    dict(nodes=3, backup_nodes=2, runtime=25, queue='qb:hi', project='pb:res7'),
+                    dict(cores=max(2 * a - 1, 2), gpus=(g + 1 if g > 0 else 0), runtime=40, queue='',
+                         project='pc')]
+        return [dict(cores=8, runtime=10, queue='qa', project='pa'),
+                dict(cores=24, runtime=25, queue='qb:hi', project='pb:res7'),
+                dict(cores=40, gpus=2, runtime=40, queue='', project='pc')]
+
+    def bulk(self, spec, fail, sizes=None, lset=LAUNCHER_ORDER, seed=0):
         '''spec: list of (platform, schema) - one pilot each, ONE bulk for the real
-           work(); fail: 1-based index (dict order) of the (resource, schema) bucket
-           whose job submission raises, 0 = none.  Returns the trace dict.'''
+           work(); sizes: size id (1..3) per pilot (same id = same request; which of
+           the three requests an id stands for is drawn from `seed`); lset: the
+           launchers whose modules are installed; fail: 1-based index (dict order) of
+           the (resource, schema) bucket whose job submission is refused by the batch
+           system stand-in, 0 = none.  Returns the trace dict.'''
         rig, events = self, []
+        spec  = [tuple(c) for c in spec]
+        sizes = list(sizes) if sizes else list(range(1, len(spec) + 1))
+        lset  = [str(x) for x in lset]
+        perm  = random.Random(seed).sample(range(3), 3)
         order = []
         for c in spec:
-            if tuple(c) not in order:
-                order.append(tuple(c))
+            if c not in order:
+                order.append(c)
         # python dict order of buckets[resource][schema]
         ress  = []
         for r, _ in order:
@@ -434,12 +800,9 @@ class SizingRig(object):
         bks   = [c for r in ress for c in order if c[0] == r]
         pilots, pinfo = [], []
         for i, (name, schema) in enumerate(spec):
-            site, res = name.split('.', 1)
-            known = bool(self.session._rcfgs[site][res].get('cores_per_node'))
-            size  = {'nodes': i + 1} if known else {'cores': 8 * (i + 1)}
-            descr = {'resource': name, 'access_schema': schema or None, 'runtime': 10,
-                     'project': 'verif', 'queue': 'q'}
-            descr.update(size)
+            row   = dict(self.size_rows(self.plat_of(name, schema))[perm[(sizes[i] - 1) % 3]])
+            descr = {'resource': name, 'access_schema': schema or None}
+            descr.update({k: v for k, v in row.items() if v not in ('', 0)})
             pd  = rp.PilotDescription(descr)
             pd.verify()
             pid = 'pilot.%04d' % i
@@ -447,36 +810,37 @@ class SizingRig(object):
                            'description': pd.as_dict()})
             jm, fs = self.expected_endpoints(name, schema)
             pinfo.append({'pid': pid, 'plat': name, 'schema': schema, 'jm': jm, 'fs': fs,
+                          'scheme': jm.split(':')[0].split('+'),
                           'bucket': bks.index((name, schema)) + 1,
-                          'size': {'nodes': size.get('nodes', 0), 'cores': size.get('cores', 0), 'gpus': 0,
-                                   'backup': 0, 'smt': 0}})
+                          'runtime': row['runtime'], 'queue': row['queue'], 'project': row['project'],
+                          'size': {'nodes': row.get('nodes', 0), 'cores': row.get('cores', 0),
+                                   'gpus': row.get('gpus', 0), 'backup': row.get('backup_nodes', 0),
+                                   'smt': 0}})
         failing = set(p['pid'] for p in pinfo if p['bucket'] == fail)
         byid    = {p['pid']: p for p in pinfo}
 
-        class Launcher(object):
-            '''stands for the PSI/J / SAGA launcher'''
-            def can_launch(self, rcfg, pilot):
-                return True
-
-            def launch_pilots(self, rcfg, ps):
-                pids = [p['uid'] for p in ps]
-                bad  = bool(failing & set(pids))
-                events.append({'ev': 'Submit', 'pids': pids, 'ok': not bad})
-                if bad:
-                    raise RuntimeError('job submission refused (injected)')
-
+        comp = self.launching_component(lset)
         c = lbase.PMGRLaunchingComponent.__new__(lbase.PMGRLaunchingComponent)
-        c.__dict__.update(self.component.__dict__)
-        c._cfg       = ru.Config(cfg={'base': self.wd})
+        c.__dict__.update(comp.__dict__)
         c._pilots, c._lock, c._cancelled, c._sandboxes = dict(), mt.RLock(), list(), dict()
-        c._stage_in  = lambda pilot, sds: None
-        c._launchers = {'RECORD': Launcher()}
 
         def advance(things, state=None, publish=True, push=False, **kw):
             events.append({'ev': 'Adv', 'pids': [t['uid'] for t in ru.as_list(things)], 'state': str(state)})
         c.advance = advance
 
-        real_bulk, real_prep = c._start_pilot_bulk, c._prepare_pilot
+        def stage_in(pilot, sds):
+            # agent configs on their way to the pilot sandboxes
+            for sd in ru.as_list(sds):
+                tgt = str(sd.get('target', '')) if isinstance(sd, dict) else ''
+                if os.path.basename(tgt) != 'agent_0.cfg':
+                    continue
+                with open(str(sd['source'])) as fh:
+                    told = json.load(fh)
+                events.append({'ev': 'Staged', 'tpid': os.path.basename(os.path.dirname(tgt)),
+                               'cpid': str(told['pid']), 'agent': agent_proj(told)})
+        c._stage_in = stage_in
+
+        real_bulk, real_prep, cfgfiles = c._start_pilot_bulk, c._prepare_pilot, []
 
         def start_pilot_bulk(resource, schema, ps):
             events.append({'ev': 'Bulk', 'res': str(resource), 'schema': str(schema or ''),
@@ -485,28 +849,96 @@ class SizingRig(object):
 
         def prepare_pilot(resource, rcfg, pilot, expand, tar_name):
             real_prep(resource, rcfg, pilot, expand, tar_name)
-            jd, agent, told = rig._figures(pilot)
+            jd, agent, told = rig._figures(pilot, cfgfiles[-1])
+            jdd   = pilot['jd_dict']
             info  = byid[pilot['uid']]
             plat  = SizingRig.platform(str(resource), rcfg)
             events.append({'ev': 'BPrepared', 'pid': pilot['uid'], 'res': str(resource),
                            'jm': str(rcfg['job_manager_endpoint']), 'fs': str(rcfg['filesystem_endpoint']),
                            'ajm': str(told['resource_cfg']['job_manager_endpoint']),
                            'sized': plat['cpn'] > 0, 'plat': plat, 'size': info['size'],
-                           'jd': jd, 'agent': agent})
+                           'jd': jd, 'agent': agent,
+                           'walltime': int(jdd.wall_time_limit), 'queue': str(jdd.queue or ''),
+                           'project': str(jdd.project or ''), 'defq': str(rcfg.default_queue or ''),
+                           'sandbox': str(jdd.working_directory)})
 
         c._start_pilot_bulk = start_pilot_bulk
         c._prepare_pilot    = prepare_pilot
 
+        # fresh launchers of the classes (and in the order) the real __init__ came up with
+        def launcher(name, proto):
+            lch  = type(proto)(name, c._log, c._prof, c._state_cb)
+            real = lch.launch_pilots
+
+            def launch_pilots(rcfg, ps):
+                pids = [p['uid'] for p in ps]
+                events.append({'ev': 'Launch', 'by': name, 'pids': pids})
+                try:
+                    real(rcfg, ps)
+                except BaseException as e:
+                    events.append({'ev': 'Submit', 'by': name, 'pids': pids, 'ok': False,
+                                   'err': ('%s: %s' % (type(e).__name__, e))[:200]})
+                    raise
+                events.append({'ev': 'Submit', 'by': name, 'pids': pids, 'ok': True, 'err': 'none'})
+            lch.launch_pilots = launch_pilots
+            return lch
+
+        def job_event(by, pid, req, walltime, queue, project, args, wdir):
+            args = _unquoted(args)
+            events.append({'ev': 'Job', 'by': by, 'pid': str(pid), 'req': req, 'walltime': int(walltime),
+                           'queue': str(queue), 'project': str(project), 'argpid': _after(args, '-p'),
+                           'dir': str(wdir)})
+
+        def psij_submit(executor, job):
+            # the launcher's own register says which pilot the job is for
+            pilot = c._launchers['PSI_J']._pilots.get(job.id) or {}
+            pid   = pilot.get('uid', 'unknown')
+            sp, rs, at = job.spec, job.spec.resources, job.spec.attributes
+            qos   = [v for k, v in sorted((at.custom_attributes or {}).items()) if k.endswith('.qos')]
+            job_event('PSI_J', pid,
+                      {'nodes': int(rs.node_count or 0), 'cpus': int(rs.process_count or 0),
+                       'gpus': int(rs.gpu_cores_per_process or 0), 'pph': int(rs.processes_per_node or 0)},
+                      at.duration.total_seconds() // 60,
+                      ':'.join([str(at.queue_name or '')] + [str(x) for x in qos]),
+                      ':'.join([str(x) for x in (at.project_name or '', at.reservation_id) if x is not None]),
+                      sp.arguments, sp.directory)
+            if pid in failing:
+                raise rig.psij.SubmitException('job submission refused (injected)')
+
+        def saga_run(container):
+            for j in container.tasks:
+                pid = 'unknown'
+                for _, cb in j.callbacks:
+                    if isinstance(cb, functools.partial) and 'pid' in cb.keywords:
+                        pid = cb.keywords['pid']
+                d = j.description
+                job_event('SAGA', pid,
+                          {'nodes': int(d.get('node_count') or 0), 'cpus': int(d.get('total_cpu_count') or 0),
+                           'gpus': int(d.get('total_gpu_count') or 0),
+                           'pph': int(d.get('processes_per_host') or 0)},
+                          d.get('wall_time_limit') or 0, d.get('queue') or '', d.get('project') or '',
+                          d.get('arguments'), d.get('working_directory'))
+                j.state = rig.saga.FAILED if pid in failing else rig.saga.PENDING
+
         leaked, keep = [], tempfile.tempdir
         tempfile.tempdir = self.wd                     # rp_agent_tmp* directories of the bulk
+        patches = self._modules(lset)
+        for pt in patches:
+            pt.start()
+        self.hooks.psij_submit, self.hooks.saga_run = psij_submit, saga_run
         try:
-            with mock.patch.object(lbase.tempfile, 'mkstemp', self._mkstemp(leaked)), \
+            events.append({'ev': 'Launchers', 'names': [str(n) for n in comp._launchers]})
+            c._launchers = {n: launcher(n, proto) for n, proto in comp._launchers.items()}
+            with mock.patch.object(lbase.tempfile, 'mkstemp', self._mkstemp(leaked, cfgfiles)), \
                  mock.patch.object(ru, 'sh_callout', lambda *a, **k: ('', '', 0)):
                 try:
                     c.work(pilots)
                 except Exception as e:
                     events.append({'ev': 'Adv', 'pids': [], 'state': 'RAISED:%s' % type(e).__name__})
         finally:
+            self.hooks.psij_submit = self.hooks.saga_run = None
+            for pt in reversed(patches):
+                pt.stop()
             tempfile.tempdir = keep
             for fd in leaked:
                 try:
@@ -515,6 +947,12 @@ class SizingRig(object):
                     pass
             for d in glob.glob(os.path.join(self.wd, 'rp_agent_tmp*')):
                 shutil.rmtree(d, ignore_errors=True)
+            for f in cfgfiles:
+                try:
+                    os.unlink(f)
+                except OSError:
+                    pass
         for p in pinfo:
             del p['size']
-        return {'kind': 'bulk', 'pilots': pinfo, 'fail': fail, 'events': events}
+        return {'kind': 'bulk', 'pilots': pinfo, 'fail': fail, 'lset': lset, 'sizes': sizes,
+                'seed': seed, 'events': events}
